@@ -169,6 +169,12 @@ impl SimpleDecoder {
             return Ok(());
         }
 
+        eyre::ensure!(
+            value.len() >= 2,
+            "record too short for its header length: {} byte(s)",
+            value.len()
+        );
+
         let (record_col_count, view) = if Self::schema_fits_record(&self.current_schema, value) {
             let view = RecordView::new(value, &self.current_schema)?;
             (self.column_types.len(), view)
